@@ -13,8 +13,8 @@ RULE = (
     "non-trivial = >=1 reconvergent fan-out or >=2 supergates; distinct = canonical circuit + mode"
 )
 BUDGET = {
-    "quick": {"workers": 16, "cases": 110, "secs": 45, "min_cases": 900},
-    "thorough": {"workers": 16, "rounds": 4, "cases": 450, "secs": 240, "min_cases": 8000},
+    "quick": {"workers": 16, "cases": 900, "secs": 60, "min_cases": 7200},
+    "thorough": {"workers": 16, "rounds": 4, "cases": 2400, "secs": 420, "min_cases": 76800},
 }
 ANCHORS = ["tx:supergates"]
 
